@@ -339,7 +339,12 @@ def fixed_scenarios():
     rot.insert(5, {'a': 'w', 'op': [{'k': 'k1', 'v': 'v1'}]})
     rot += [{'a': 'join'}, {'a': 'sleep', 'ms': 650}, {'a': 'flush'}] + [{'a': 'ab', 'op': long_batch(104 + i, 4 + i)} for i in range(4)]
     rot += [{'a': 'w', 'op': [{'k': 'k2', 'v': 'v2'}]}]
-    return [('rotation-during-catchup', rot, 'ascii', 'mid'), ('pushed-batches-over-100-entries', long_push, 'ascii', 'mid'), ('restart-after-transaction-writes-while-down', restart, 'ascii', 'mid'), ('catchup-volume-cut-in-transaction', vol, 'huge', 'mid'), ('pushed-batches-over-256KB', big_push, 'huge', 'mid'), ('pushed-applybatch-numbered-entries', numbered, 'ascii', 'mid'),
+    # the link of a healthy, running replica is cut (TCP reset through a forwarder) and comes back: no restart, no rrestart event
+    one = lambda k, v: {'a': 'w', 'op': [{'k': k, 'v': v}]}
+    cut = [{'a': 'join'}, {'a': 'sleep', 'ms': 1200}, one('k1', 'v1'), one('k1', 'v2'), {'a': 'w', 'op': t3('v3', 'v4', 'v5')}, one('k2', 'v6'),
+           {'a': 'sleep', 'ms': 1500}, {'a': 'cut'}, one('k1', 'v7'), {'a': 'w', 'op': [{'k': 'k2', 'v': 'TOMB'}, {'k': 'k3', 'v': 'v8'}]},
+           {'a': 'sleep', 'ms': 1500}, {'a': 'linkup'}, {'a': 'sleep', 'ms': 2500}, one('k3', 'v9'), one('k1', 'v1')]
+    return [('link-cut-and-back', cut, 'ascii', 'mid'), ('rotation-during-catchup', rot, 'ascii', 'mid'), ('pushed-batches-over-100-entries', long_push, 'ascii', 'mid'), ('restart-after-transaction-writes-while-down', restart, 'ascii', 'mid'), ('catchup-volume-cut-in-transaction', vol, 'huge', 'mid'), ('pushed-batches-over-256KB', big_push, 'huge', 'mid'), ('pushed-applybatch-numbered-entries', numbered, 'ascii', 'mid'),
             ('chunk-cuts-batch-join-after', many, 'ascii', 'mid'), ('single-after-idle', single_after_idle, 'binary', 'mid'),
             ('pushed-transactions', txn_push, 'ascii', 'mid'), ('flush-between', flush_between, 'ascii', 'mid'),
             ('big-values-join-after', many[60:], 'big', 'bigval')]
@@ -560,7 +565,7 @@ def run_fault(ctx, job, tag):
         args += ['-seed', str(ctx.seed * 10 + job.get('seedoff', 0)), '-healthy', str(job.get('healthy', 0)), '-sync', str(job.get('sync', 0)),
                  '-rounds', str(job.get('rounds', 12)), '-writers', str(job.get('writers', 4)), '-valb', str(job.get('valb', 200)),
                  '-pace_us', str(job.get('pace_us', 0)), '-flush_ms', str(job.get('flush_ms', 0))] + (['-head'] if job.get('head') else []) + \
-                (['-ack'] if job.get('ack') else [])
+                (['-ack'] if job.get('ack') else []) + (['-nack'] if job.get('nack') else [])
     else:
         args += ['-scenario', job['scenario']]
     try:
@@ -610,6 +615,9 @@ def fault_jobs(ctx):
         # retention: a protocol client acknowledges every few ms while the writers run and the log is rotated now and then
         {'name': 'churn writers=3 sync=immediate flushes acknowledging-client', 'cmd': 'repl-churn', 'sync': 2, 'rounds': 4, 'writers': 3,
          'ack': True, 'flush_ms': 150, 'seedoff': 2},
+        # resend: a protocol client reads its stream and sends a negative acknowledgement every few ms while the writers run
+        {'name': 'churn writers=3 sync=none negatively-acknowledging-client', 'cmd': 'repl-churn', 'sync': 0, 'rounds': 4, 'writers': 3,
+         'nack': True, 'seedoff': 3},
         {'name': 'gated push-dead-stream', 'cmd': 'repl-gated', 'scenario': 'push-dead-stream'},
         {'name': 'gated hb-fail', 'cmd': 'repl-gated', 'scenario': 'hb-fail'},
     ]
@@ -740,7 +748,8 @@ def check_C15(ctx):
        negatives=[('MC_ReplLocks', 'MC_Repl_locks_neg_order.cfg', 'Deadlock reached'),
                   ('MC_ReplLocks', 'MC_Repl_locks_neg_unreg.cfg', 'Deadlock reached'),
                   ('MC_ReplLocks', 'MC_Repl_locks_neg_hbleak.cfg', 'Deadlock reached'),
-                  ('MC_ReplLocks', 'MC_Repl_locks_neg_retention.cfg', 'Deadlock reached')])
+                  ('MC_ReplLocks', 'MC_Repl_locks_neg_retention.cfg', 'Deadlock reached'),
+                  ('MC_ReplLocks', 'MC_Repl_locks_neg_resend.cfg', 'Deadlock reached')])
     replay_witnesses(ctx, 'C15')
     runs = [f.result() for f in futs]
     pool.shutdown()
@@ -807,8 +816,8 @@ def check_C15(ctx):
                    'driver writes until an operation misses its deadline or the byte budget (64 MB) is used; every invoke needs its return, the '
                    'faulty client must leave GetNodeInfo, the healthy replica must equal the primary afterwards; traces validated by TLC against '
                    'TRACE_Repl. The lock structure of the primary (WAL lock, sessions RW lock with pending-writer blocking, session lock; writer, '
-                   'catch-up, registration, heartbeat, acknowledgement + retention) is model-checked in MC_ReplLocks: a started write returns and no deadlock exists for the '
-                   'repaired order; the order before fix 11 and three seeded variants deadlock. Bound by churn scenarios (full-rate writers while '
+                   'catch-up, registration, heartbeat, acknowledgement + retention, negative acknowledgement + resend) is model-checked in MC_ReplLocks: a started write returns and no deadlock exists for the '
+                   'repaired order; the order before fix 11 and four seeded variants deadlock. Bound by churn scenarios (full-rate writers while '
                    'clients attach, read, reset or stall-then-reset their connection for 12+ rounds; with periodic flushes and a protocol client that acknowledges every few ms) and two gated scenarios that park the StreamWAL '
                    'handler before its exit / the heartbeat before its send. Sampled fault points and sizes, not exhaustive. '
                    'distinct_nontrivial = fault scenarios run')
